@@ -68,10 +68,19 @@ static void run_case(const std::string& cid, Toks& t) {
         int br = t.next_int(), bc = t.next_int(); ParLit L; L.parse(t); int k = t.next_int();
         if (!L.usable()) return;
         ParCSRMatrix* Ac = L.csr(); ParMatrix* A = Ac->to_ParBSR(br, bc);
+        bool scalar = false;
         for (int i = 0; i < k; i++) { std::string o = t.next(); ParMatrix* Bm;
             if (o == "to_bcoo") Bm = A->to_ParBCOO(); else if (o == "to_bsr") Bm = A->to_ParBSR(); else if (o == "to_bsc") Bm = A->to_ParBSC();
-            else if (o == "copy") Bm = A->copy(); else throw std::runtime_error("op " + o);
+            else if (o == "copy") Bm = A->copy();
+            else if (o == "to_csr") { Bm = A->to_ParCSR(); scalar = (Bm->on_proc->format() == CSR); }   // ParBSR expands to scalars; ParBCOO / ParBSC return the block-row form
+            else throw std::runtime_error("op " + o);
             A = Bm; }
+        if (scalar) {
+            emit_all(cid, "T", parmat_triples(A));
+            std::ostringstream d; d << A->global_num_rows / br << " " << A->global_num_cols / bc << " " << A->local_num_rows << " " << A->on_proc_num_cols << " "
+              << A->off_proc_num_cols << " fmt " << (int)A->on_proc->format() << " fc " << A->partition->first_local_col << " " << A->partition->local_num_cols;
+            emit_all(cid, "D", d.str()); emit0(cid, "DONE", "1"); return;
+        }
         // expanded global triples of the local block rows
         std::ostringstream o; bool first = true;
         for (int part = 0; part < 2; part++) {
